@@ -1,1 +1,453 @@
-pub fn run(_a: &vcommon::Args) {}
+//! C16 — At most one fetch per repository, attributed to the right peer.
+//!
+//! The harness plays the wire layer and the worker pool, mirroring `Wire::worker_result`: every
+//! `Io::Fetch` becomes a task tagged with the connection epoch of its peer; a task's result may be
+//! delivered at any later step and is forwarded to `Service::fetched` iff a connection to that
+//! peer exists at that moment (possibly a newer one). Results carry a marker unique to their task.
+use std::collections::BTreeMap;
+
+use radicle::identity::doc::{DocAt, Visibility};
+use radicle::identity::{Did, RepoId};
+use radicle::node::FetchResult as UserFetchResult;
+use radicle::storage::RefUpdate;
+use radicle::test::storage::MockStorage;
+use radicle_node::prelude::{LocalDuration, NodeId};
+use radicle_node::service::io::Io;
+use radicle_node::service::policy::{Scope, SeedingPolicy};
+use radicle_node::service::{Command, DisconnectReason, ServiceState};
+use radicle_node::worker::fetch::FetchResult;
+use radicle_node::worker::FetchError;
+use radicle_node::Link;
+use vcommon::{guarded, json, Args, Reporter, Rng, Value};
+
+use crate::svc::{self, Node, Remote};
+
+#[derive(Clone, Copy, Debug, PartialEq, Eq)]
+enum Ev {
+    Connect(usize),       // inbound
+    ConnectOut(usize),    // outbound (command + attempted + connected)
+    Disconnect(usize),
+    FetchCmd(usize, usize), // (repo, peer)
+    RefsAnn(usize, usize),  // (repo, announcer = deliverer)
+    InvAnn(usize),
+    Deliver(usize, u8),     // (k-th pending task, 0 ok / 1 err / 2 timeout)
+    Wake,
+}
+
+#[derive(Clone, Debug)]
+struct Task {
+    id: usize,
+    rid: usize,
+    peer: usize,
+    epoch: u32,
+    answered: bool,
+    created_step: usize,
+}
+
+struct Sub {
+    rid: usize,
+    peer: usize,
+    epoch: u32,
+    step: usize,
+    rx: crossbeam_channel::Receiver<UserFetchResult>,
+}
+
+struct Env {
+    node: Node,
+    remotes: Vec<Remote>,
+    rids: Vec<RepoId>,
+    docs: Vec<DocAt>,
+    connected: Vec<bool>,
+    link: Vec<Link>,
+    epoch: Vec<u32>,
+    tasks: Vec<Task>,
+    subs: Vec<Sub>,
+    ts: u64,
+    step: usize,
+    late_result_delivered: bool,
+    late_rids: std::collections::BTreeSet<usize>,
+    late_peers: std::collections::BTreeSet<usize>,
+    delivering_late: bool,
+    log: Vec<Value>,
+    concurrency: usize,
+}
+
+fn mk_env(seed: u64, npeers: usize, nrepos: usize, concurrency: usize) -> Env {
+    let remotes: Vec<Remote> = (0..npeers as u8).map(Remote::new).collect();
+    let mut rids = vec![];
+    let mut docs = vec![];
+    for i in 0..nrepos {
+        let (rid, doc) = svc::mk_doc(&format!("c16-{i}"), &[Did::from(remotes[0].nid)], Visibility::Public);
+        rids.push(rid);
+        docs.push(doc);
+    }
+    let storage = MockStorage::empty();
+    let opts = svc::NodeOpts { relay: true, policy: SeedingPolicy::Allow { scope: Scope::All }, seed, fetch_concurrency: concurrency };
+    let node = svc::mk_node(storage, &opts);
+    Env {
+        node, remotes, rids, docs, connected: vec![false; npeers], link: vec![Link::Inbound; npeers], epoch: vec![0; npeers],
+        tasks: vec![], subs: vec![], ts: svc::T0 + 10, step: 0, late_result_delivered: false, late_rids: Default::default(), late_peers: Default::default(), delivering_late: false, log: vec![], concurrency,
+    }
+}
+
+impl Env {
+    fn pending(&self) -> Vec<usize> {
+        self.tasks.iter().filter(|t| !t.answered).map(|t| t.id).collect()
+    }
+    fn live(&self, t: &Task) -> bool {
+        !t.answered && self.connected[t.peer] && self.epoch[t.peer] == t.epoch
+    }
+    fn enabled(&self, ev: &Ev) -> bool {
+        match ev {
+            Ev::Connect(p) | Ev::ConnectOut(p) => !self.connected[*p],
+            Ev::Disconnect(p) => self.connected[*p],
+            Ev::FetchCmd(_, _) => true,
+            Ev::RefsAnn(_, p) | Ev::InvAnn(p) => self.connected[*p],
+            Ev::Deliver(k, _) => *k < self.pending().len(),
+            Ev::Wake => true,
+        }
+    }
+
+    /// Apply one event to the real service. Returns Err(panic message) if the service panicked.
+    fn apply(&mut self, ev: &Ev, rng: &mut Rng) -> Result<(), String> {
+        self.step += 1;
+        self.delivering_late = false;
+        self.ts += 1000;
+        let ts = self.ts;
+        let desc = format!("{ev:?}");
+        let r = guarded(|| match *ev {
+            Ev::Connect(p) => {
+                self.node.service.connected(self.remotes[p].nid, self.remotes[p].addr.clone(), Link::Inbound);
+                self.connected[p] = true;
+                self.link[p] = Link::Inbound;
+                self.epoch[p] += 1;
+                self.node.service.received_message(self.remotes[p].nid, self.remotes[p].node_announcement(ts).into());
+            }
+            Ev::ConnectOut(p) => {
+                self.node.service.command(Command::Connect(self.remotes[p].nid, self.remotes[p].addr.clone(), radicle::node::ConnectOptions::default()));
+                // the wire only reports an attempt/connection for a dial the service asked for
+                let dialed = svc::drain(&mut self.node).iter().any(|io| matches!(io, Io::Connect(n, _) if *n == self.remotes[p].nid));
+                if dialed {
+                    self.node.service.attempted(self.remotes[p].nid, self.remotes[p].addr.clone());
+                    self.node.service.connected(self.remotes[p].nid, self.remotes[p].addr.clone(), Link::Outbound);
+                    self.connected[p] = true;
+                    self.link[p] = Link::Outbound;
+                    self.epoch[p] += 1;
+                    self.node.service.received_message(self.remotes[p].nid, self.remotes[p].node_announcement(ts).into());
+                }
+            }
+            Ev::Disconnect(p) => {
+                self.node.service.disconnected(self.remotes[p].nid, self.link[p], &DisconnectReason::Command);
+                self.connected[p] = false;
+            }
+            Ev::FetchCmd(r, p) => {
+                let (tx, rx) = crossbeam_channel::unbounded();
+                self.subs.push(Sub { rid: r, peer: p, epoch: self.epoch[p], step: self.step, rx });
+                self.node.service.command(Command::Fetch(self.rids[r], self.remotes[p].nid, std::time::Duration::from_secs(3), tx));
+            }
+            Ev::RefsAnn(r, p) => {
+                let refs_at = radicle::storage::refs::RefsAt { remote: self.remotes[p].nid, at: svc::oid(rng) };
+                let ann = self.remotes[p].refs_announcement(ts, self.rids[r], vec![refs_at]);
+                self.node.service.received_message(self.remotes[p].nid, ann.into());
+            }
+            Ev::InvAnn(p) => {
+                let ann = self.remotes[p].inventory_announcement(ts, &self.rids);
+                self.node.service.received_message(self.remotes[p].nid, ann.into());
+            }
+            Ev::Deliver(k, how) => {
+                let id = self.pending()[k];
+                let t = self.tasks[id].clone();
+                self.tasks[id].answered = true;
+                // Wire::worker_result: looked up by node id only; forwarded iff connected now
+                if self.connected[t.peer] {
+                    if self.epoch[t.peer] != t.epoch {
+                        self.late_result_delivered = true;
+                        self.late_rids.insert(t.rid);
+                        self.late_peers.insert(t.peer);
+                        self.delivering_late = true;
+                    }
+                    let result = match how {
+                        0 => Ok(FetchResult {
+                            updated: vec![RefUpdate::Created { name: radicle::git::RefString::try_from(format!("refs/heads/task-{}", t.id)).unwrap(), oid: svc::oid(rng) }],
+                            namespaces: [self.remotes[t.peer].nid].into_iter().collect(),
+                            clone: false,
+                            doc: self.docs[t.rid].clone(),
+                        }),
+                        1 => Err(FetchError::Io(std::io::Error::new(std::io::ErrorKind::Other, format!("task-{}", t.id)))),
+                        _ => Err(FetchError::Io(std::io::Error::new(std::io::ErrorKind::TimedOut, format!("task-{}", t.id)))),
+                    };
+                    self.node.service.fetched(self.rids[t.rid], self.remotes[t.peer].nid, result);
+                }
+            }
+            Ev::Wake => {
+                svc::elapse(&mut self.node, LocalDuration::from_secs(31));
+            }
+        });
+        self.log.push(json!({"step": self.step, "event": desc}));
+        r
+    }
+
+    /// Drain outputs into tasks; returns Io::Disconnect requests.
+    fn absorb_outputs(&mut self) -> Vec<usize> {
+        let mut disc = vec![];
+        for io in svc::drain(&mut self.node) {
+            match io {
+                Io::Fetch { rid, remote, .. } => {
+                    let r = self.rids.iter().position(|x| *x == rid);
+                    let p = self.remotes.iter().position(|x| x.nid == remote);
+                    if let (Some(r), Some(p)) = (r, p) {
+                        if self.connected[p] {
+                            let id = self.tasks.len();
+                            self.tasks.push(Task { id, rid: r, peer: p, epoch: self.epoch[p], answered: false, created_step: self.step });
+                            self.log.push(json!({"step": self.step, "output": format!("Io::Fetch repo {r} from peer {p} -> task {id} (epoch {})", self.epoch[p])}));
+                        }
+                    }
+                }
+                Io::Disconnect(nid, _) => {
+                    if let Some(p) = self.remotes.iter().position(|x| x.nid == nid) {
+                        disc.push(p);
+                    }
+                }
+                _ => {}
+            }
+        }
+        disc
+    }
+
+    fn witness(&self, extra: Value) -> Value {
+        json!({"detail": extra, "log": self.log, "fetch_concurrency": self.concurrency,
+               "tasks": self.tasks.iter().map(|t| json!({"id": t.id, "repo": t.rid, "peer": t.peer, "epoch": t.epoch, "answered": t.answered, "created_step": t.created_step})).collect::<Vec<_>>()})
+    }
+
+    /// The monitors. Returns false when a violation was reported.
+    fn check(&mut self, rep: &mut Reporter) -> bool {
+        const LATE: &str = "/after-late-result-of-previous-connection";
+        // M1: at most one live task per repository
+        for r in 0..self.rids.len() {
+            let live: Vec<usize> = self.tasks.iter().filter(|t| t.rid == r && self.live(t)).map(|t| t.id).collect();
+            if live.len() > 1 {
+                let suffix = if self.late_rids.contains(&r) { LATE } else { "" };
+                rep.violation(&format!("C16/two-fetches-of-one-repository-in-flight{suffix}"), self.witness(json!({"repo": r, "live_tasks": live})));
+                return false;
+            }
+        }
+        // M2: per-peer concurrency
+        for p in 0..self.remotes.len() {
+            let live = self.tasks.iter().filter(|t| t.peer == p && self.live(t)).count();
+            if live > self.concurrency {
+                let suffix = if self.late_peers.contains(&p) { LATE } else { "" };
+                rep.violation(&format!("C16/per-peer-fetch-concurrency-exceeded{suffix}"), self.witness(json!({"peer": p, "live": live})));
+                return false;
+            }
+            if let Some(s) = self.node.service.sessions().get(&self.remotes[p].nid) {
+                rep.max("queue-length", s.queue.len() as u64);
+                if s.queue.len() > 128 {
+                    rep.violation("C16/fetch-queue-capacity-exceeded", self.witness(json!({"peer": p, "queue": s.queue.len()})));
+                    return false;
+                }
+            }
+        }
+        // M6: a live task keeps its fetch-state entry
+        for t in self.tasks.iter().filter(|t| self.live(t)) {
+            match self.node.service.fetching().get(&self.rids[t.rid]) {
+                Some(f) if f.from == self.remotes[t.peer].nid => {}
+                other => {
+                    let suffix = if self.late_rids.contains(&t.rid) { LATE } else { "" };
+                    rep.violation(&format!("C16/fetch-state-of-running-fetch-lost-or-attributed-to-other-peer{suffix}"), self.witness(json!({"task": t.id, "state_from": other.map(|f| f.from.to_string())})));
+                    return false;
+                }
+            }
+        }
+        // M5: results on subscriber channels belong to a task of this peer/repo from the command's
+        // own connection epoch or later
+        for s in &self.subs {
+            while let Ok(res) = s.rx.try_recv() {
+                let marker: Option<usize> = match &res {
+                    UserFetchResult::Success { updated, .. } => updated.iter().find_map(|u| match u {
+                        RefUpdate::Created { name, .. } => name.as_str().strip_prefix("refs/heads/task-").and_then(|n| n.parse().ok()),
+                        _ => None,
+                    }),
+                    UserFetchResult::Failed { reason } => reason.rsplit("task-").next().filter(|_| reason.contains("task-")).and_then(|n| n.trim().parse().ok()),
+                };
+                rep.count("subscriber-results-observed");
+                if let Some(id) = marker {
+                    let t = &self.tasks[id];
+                    if t.rid != s.rid || t.peer != s.peer {
+                        rep.violation("C16/subscriber-received-result-of-fetch-for-other-repo-or-peer", self.witness(json!({"command_step": s.step, "task": id})));
+                        return false;
+                    }
+                    if t.epoch < s.epoch {
+                        rep.violation("C16/subscriber-received-result-of-task-from-previous-connection", self.witness(json!({"command_step": s.step, "command_epoch": s.epoch, "task": id, "task_epoch": t.epoch})));
+                        return false;
+                    }
+                }
+            }
+        }
+        true
+    }
+}
+
+fn alphabet(npeers: usize, nrepos: usize, reduced: bool) -> Vec<Ev> {
+    let mut a = vec![];
+    for p in 0..npeers {
+        a.push(Ev::Connect(p));
+        a.push(Ev::Disconnect(p));
+        if !reduced {
+            a.push(Ev::ConnectOut(p));
+            a.push(Ev::InvAnn(p));
+        }
+        for r in 0..nrepos {
+            a.push(Ev::FetchCmd(r, p));
+            if !reduced || p == 0 {
+                a.push(Ev::RefsAnn(r, p));
+            }
+        }
+    }
+    a.push(Ev::Deliver(0, 0));
+    a.push(Ev::Deliver(1, 1));
+    if !reduced {
+        a.push(Ev::Deliver(0, 2));
+        a.push(Ev::Deliver(2, 0));
+        a.push(Ev::Wake);
+    }
+    a
+}
+
+/// Run one schedule on a fresh service.
+fn run_schedule(rep: &mut Reporter, seed: u64, npeers: usize, nrepos: usize, concurrency: usize, sched: &[Ev], rng: &mut Rng) {
+    let Ok(mut env) = guarded(|| mk_env(seed, npeers, nrepos, concurrency)) else {
+        rep.inconclusive("node construction panicked", json!({}));
+        return;
+    };
+    svc::drain(&mut env.node);
+    rep.eval();
+    let mut applied = 0;
+    let mut reconnect_between_fetch_and_result = false;
+    for ev in sched {
+        if !env.enabled(ev) {
+            continue;
+        }
+        applied += 1;
+        if let Ev::Deliver(k, _) = ev {
+            let id = env.pending()[*k];
+            let t = &env.tasks[id];
+            if env.connected[t.peer] && env.epoch[t.peer] != t.epoch {
+                reconnect_between_fetch_and_result = true;
+            }
+        }
+        if let Err(p) = env.apply(ev, rng) {
+            let shape = if env.delivering_late { "/while-applying-late-result-of-previous-connection" } else { "" };
+            rep.violation(&format!("C16/panic/{}{shape}", vcommon::panic_site(&p)), env.witness(json!({"panic": p})));
+            return;
+        }
+        // honour Io::Disconnect requests right away
+        let disc = env.absorb_outputs();
+        for p in disc {
+            if env.connected[p] {
+                let link = env.link[p];
+                if guarded(|| env.node.service.disconnected(env.remotes[p].nid, link, &DisconnectReason::Command)).is_err() {
+                    rep.violation("C16/panic/in-disconnected", env.witness(json!({})));
+                    return;
+                }
+                env.connected[p] = false;
+                env.log.push(json!({"step": env.step, "event": format!("(Io::Disconnect honoured for peer {p})")}));
+                env.absorb_outputs();
+            }
+        }
+        if !env.check(rep) {
+            return;
+        }
+    }
+    rep.add("events-applied", applied);
+    if reconnect_between_fetch_and_result {
+        rep.count("schedules.result-delivered-after-disconnect-and-reconnect");
+    }
+    if env.tasks.len() >= 2 {
+        rep.count("schedules.with-two-or-more-fetch-tasks");
+    }
+    let h = vcommon::fnv(format!("{:?}", env.log).as_bytes());
+    if env.tasks.len() >= 1 {
+        rep.nontrivial(h);
+    }
+    if rep.wants_sample() && reconnect_between_fetch_and_result {
+        rep.sample(env.witness(json!({})));
+    }
+}
+
+pub fn run(args: &Args) {
+    let mut rep = Reporter::new("C16");
+    let mut rng = Rng::new(vcommon::mix(args.seed, "C16", args.shard));
+    if let Some(path) = &args.replay {
+        let w = vcommon::load_replay(path);
+        // replay the logged events by name
+        let evs: Vec<Ev> = w["log"].as_array().unwrap().iter().filter_map(|l| l["event"].as_str()).filter_map(parse_ev).collect();
+        let conc = w["fetch_concurrency"].as_u64().unwrap_or(1) as usize;
+        run_schedule(&mut rep, args.seed, 3, 2, conc, &evs, &mut rng);
+        rep.finish();
+        return;
+    }
+    // systematic: all sequences over the reduced alphabet up to depth D (enabled-ness filters at run time)
+    let depth = if args.thorough { 6 } else { 5 };
+    let alpha = alphabet(2, 1, true);
+    let total = (alpha.len() as u64).pow(depth as u32);
+    let mut idx = 0u64;
+    let mut sys = 0u64;
+    while idx < total {
+        if idx % args.shards == args.shard {
+            let mut code = idx;
+            let mut sched = vec![];
+            for _ in 0..depth {
+                sched.push(alpha[(code % alpha.len() as u64) as usize]);
+                code /= alpha.len() as u64;
+            }
+            // prune: sequences whose first event is not enabled in the initial state are duplicates
+            if matches!(sched[0], Ev::Connect(_) | Ev::FetchCmd(_, _)) {
+                run_schedule(&mut rep, args.seed, 2, 1, 1, &sched, &mut rng);
+                sys += 1;
+            }
+        }
+        idx += 1;
+    }
+    rep.add("systematic.schedules", sys);
+    rep.max("systematic.depth", depth as u64);
+    // random schedules
+    let n = args.budget(24_000, 600_000);
+    for k in 0..n {
+        let mut r = Rng::new(args.case_seed(k));
+        let npeers = 2 + r.usize(2);
+        let nrepos = 1 + r.usize(2);
+        let conc = 1 + r.usize(2);
+        let alpha = alphabet(npeers, nrepos, false);
+        let len = 10 + r.usize(21);
+        let mut sched: Vec<Ev> = vec![];
+        if r.chance(1, 3) {
+            // aim at the dangerous region: a fetch, then disconnect and reconnect of its peer
+            let p = r.usize(npeers);
+            let q = r.usize(npeers);
+            let rr = r.usize(nrepos);
+            sched.extend([Ev::Connect(p), Ev::Connect(q), Ev::FetchCmd(rr, p), Ev::Disconnect(p), Ev::Connect(p)]);
+            sched.push(if r.bool() { Ev::FetchCmd(rr, if r.bool() { p } else { q }) } else { Ev::RefsAnn(rr, p) });
+        }
+        sched.extend((0..len).map(|_| *r.pick(&alpha)));
+        run_schedule(&mut rep, args.case_seed(k), npeers, nrepos, conc, &sched, &mut r);
+        rep.count("random.schedules");
+    }
+    rep.finish();
+}
+
+fn parse_ev(s: &str) -> Option<Ev> {
+    let s = s.trim();
+    let nums: Vec<usize> = s.split(|c: char| !c.is_ascii_digit()).filter(|x| !x.is_empty()).filter_map(|x| x.parse().ok()).collect();
+    if s.starts_with("ConnectOut") { Some(Ev::ConnectOut(nums[0])) }
+    else if s.starts_with("Connect") { Some(Ev::Connect(nums[0])) }
+    else if s.starts_with("Disconnect") { Some(Ev::Disconnect(nums[0])) }
+    else if s.starts_with("FetchCmd") { Some(Ev::FetchCmd(nums[0], nums[1])) }
+    else if s.starts_with("RefsAnn") { Some(Ev::RefsAnn(nums[0], nums[1])) }
+    else if s.starts_with("InvAnn") { Some(Ev::InvAnn(nums[0])) }
+    else if s.starts_with("Deliver") { Some(Ev::Deliver(nums[0], nums[1] as u8)) }
+    else if s.starts_with("Wake") { Some(Ev::Wake) }
+    else { None }
+}
+
+#[allow(dead_code)]
+fn _unused(_: BTreeMap<u8, u8>, _: NodeId) {}
